@@ -42,7 +42,7 @@ fn durations(pending: bool) -> Vec<(&'static str, Duration)> {
 fn paths(e: &Env) -> Vec<(&'static str, String)> {
     vec![
         ("empty", String::new()),
-        ("4200-bytes", format!("{}/{}", e.dir, "p/".repeat(2100))),
+        ("4200-bytes", format!("{}/{}", e.dir, "pppppppp/".repeat(470))),
         ("300-byte-component", format!("{}/{}", e.dir, "c".repeat(300))),
         ("in-missing-dir", format!("{}/no-such-dir/x", e.dir)),
     ]
@@ -199,7 +199,7 @@ pub fn all() -> Vec<Scn> {
         v.push(var("Directory::open", &w, move |e| mk(Directory::open(&us(paths(e)[i].1.clone())), peek)));
         v.push(var("fs::remove_dir_all", &w, move |e| mk(fs::remove_dir_all(&us(paths(e)[i].1.clone())), nofd)));
         v.push(var("fs::create_dir_all", &w, move |e| mk(fs::create_dir_all(&us(paths(e)[i].1.clone())), nofd)).prep(|e| {
-            e.rm("p");
+            e.rm("pppppppp");
             e.rm("no-such-dir");
             e.rm(&"c".repeat(300));
         }));
